@@ -114,6 +114,14 @@ REPO_PROPS = {'C05', 'C03', 'C04', 'C06', 'C10', 'C13'}
 
 
 def run_C11(rep, g):
+    # "any chain of into_inner/Display -> try_new/TryFrom/FromStr/Deserialize steps stays on the same value": each exit
+    # step hands out the stored value, each re-entry step is the constructor applied to what the inner type's own
+    # FromStr/Deserialize reads back (the structural half of the clause; that half is what nutype generates)
+    rules.check_into_inner(rep, g)
+    rules.check_conversions(rep, g)
+    rules.check_from_str(rep, g)
+    rules.check_serialize(rep, g)
+    rules.check_deserialize(rep, g)
     if g.d.get('custom') is None and any(x['kind'] == 'with' for x in g.d['sanitizers']):
         # "custom ones declared idempotent": the declaration's author vouches for the pipeline *as declared*; what remains to
         # decide is that the generated pipeline is that one (same steps, same order) - the R-SAN clause of the constructor
